@@ -58,11 +58,17 @@ def _finish(prop, tier, t0, sums, vios, msums, mvios, mstats, rule, extra_assume
     # and reported, the rest is listed
     for v in new[8:]:
         print(f"  further class (not replayed): {v['key']}")
+    from concurrent.futures import ThreadPoolExecutor
+
+    todo = []
     for v in new[:8]:
         v = dict(v)
         v["property"] = prop
-        path = H.write_replay(prop, v)
-        rep = replay_any(prop, path)
+        todo.append((v, H.write_replay(prop, v)))
+    # fresh-process replays in parallel (a Miri replay takes a minute or two)
+    with ThreadPoolExecutor(max_workers=8) as ex:
+        reps = list(ex.map(lambda t: replay_any(prop, t[1]), todo))
+    for (v, path), rep in zip(todo, reps):
         if not rep.get("reproduced"):
             print(f"HARNESS-ERROR: replay {path} did not reproduce ({rep})", flush=True)
             rc = 2
